@@ -6,6 +6,7 @@ import itertools
 import shlex
 
 from engine import evidence
+from engine import explorer
 from engine import harness
 from engine.parallel import pmap
 
@@ -244,7 +245,147 @@ class IdScn:
         return None, outcome
 
 
-SCENARIOS = {"ids": IdScn}
+class HistScn:
+    """a sequential history of makegateway / exit calls on one group (ids reused after an exit, exits
+    repeated), compared after every step with a plain list model: iteration order, lookup by index /
+    id / object, membership by id / object -- for every gateway object ever created"""
+
+    @staticmethod
+    def scenario(w, P):
+        S = Session(w, "popen", "thread")
+
+        def main():
+            from execnet.multi import Group
+
+            S.group = g = Group(execmodel=S.proc.execmodel)
+            objs = []  # every gateway object ever created
+            live = []  # the model: indices into objs, in registration order
+            nauto = 0
+            bad = S.ctx.setdefault("bad", [])
+
+            def lookup(key):
+                try:
+                    return g[key]
+                except (KeyError, IndexError):
+                    return None
+
+            def compare(step):
+                want = [objs[i] for i in live]
+                got = list(g)
+                if [x.id for x in got] != [x.id for x in want] or any(a is not b for a, b in zip(got, want)) or len(g) != len(want):
+                    bad.append((step, "iteration", [x.id for x in got], [x.id for x in want]))
+                    return
+                for i, x in enumerate(want):
+                    if lookup(i) is not x:
+                        bad.append((step, "index-lookup", i, x.id))
+                byid = {x.id: x for x in want}
+                for k, o in enumerate(objs):
+                    is_live = k in live
+                    if (o in g) != is_live:
+                        bad.append((step, "membership-by-object", f"obj#{k} id={o.id} live={is_live}", o in g))
+                    r = lookup(o)
+                    if (r is o) != is_live or (not is_live and r is not None):
+                        bad.append((step, "lookup-by-object", f"obj#{k} id={o.id} live={is_live}", None if r is None else f"returned the object registered as {r.id}, same object: {r is o}"))
+                    if (o.id in g) != (o.id in byid):
+                        bad.append((step, "membership-by-id", o.id, o.id in g))
+                    if lookup(o.id) is not byid.get(o.id):
+                        bad.append((step, "lookup-by-id", o.id))
+
+            for step, op in enumerate(P["ops"]):
+                try:
+                    if op[0] == "m":
+                        spec = "popen" if op == "mx" else "popen//id=" + op[1]
+                        want_id = spec.split("id=")[1] if "id=" in spec else None
+                        taken = want_id is not None and any(objs[i].id == want_id for i in live)
+                        try:
+                            gw = g.makegateway(spec)
+                        except ValueError:
+                            if not taken:
+                                bad.append((step, "makegateway-refused", spec))
+                            continue
+                        if taken:
+                            bad.append((step, "taken-id-accepted", spec))
+                        objs.append(gw)
+                        live.append(len(objs) - 1)
+                    else:
+                        k = int(op[1])
+                        objs[k].exit()
+                        if k in live:
+                            live.remove(k)
+                except BaseException as e:  # noqa: BLE001
+                    bad.append((step, "exception", op, type(e).__name__, str(e)[:80]))
+                    break
+                compare(step)
+            S.ctx["done"] = True
+            g.terminate(timeout=2.0)
+            # gateways that had exited before are not waited for by terminate(): give them their moment
+            S.proc.execmodel.sleep(3.0)
+            S.ctx["left"] = sorted(p.name for p in w.procs[1:] if p.alive)
+
+        S.main(main)
+        return S
+
+    @staticmethod
+    def oracle(w, S, P):
+        if not S.ctx.get("done") or "left" not in S.ctx:
+            return ("c20:history-hang", f"ops={P['ops']} blocked={w.blocked_at_end} bad={S.ctx.get('bad')}"), 0
+        bad = S.ctx["bad"]
+        if bad:
+            step, kind = bad[0][0], bad[0][1]
+            return (f"c20:history-{kind}", f"history {P['ops']}: after step {step} ({P['ops'][step]}) {kind}: {bad[0][2:]} (all: {bad[:4]})"), 0
+        if S.ctx["left"]:
+            return ("c20:process-left-behind", f"history {P['ops']}: after terminate {S.ctx['left']}"), 0
+        return None, 1
+
+
+def hist_chunk(chunk):
+    n = 0
+    for ops in chunk:
+        n += 1
+        r = explorer.run_once(HistScn.scenario, HistScn.oracle, {"ops": list(ops)}, [], want_fp=False)
+        if r.violation is not None:
+            return n, (list(ops), r.violation)
+    return n, None
+
+
+def histories(depth):
+    alphabet = ["ma", "mb", "mx", "e0", "e1", "e2"]
+    out = []
+    for d in range(1, depth + 1):
+        for seq in itertools.product(alphabet, repeat=d):
+            made = 0
+            ok = True
+            for op in seq:
+                if op[0] == "m":
+                    made += 1  # an upper bound: a refused call creates nothing, the scenario copes
+                elif int(op[1]) >= made:
+                    ok = False
+                    break
+            # refused makes shift object numbers: keep only sequences whose exits are valid under the model
+            if ok and _valid(seq):
+                out.append(seq)
+    return out
+
+
+def _valid(seq):
+    live, ids = [], []
+    for op in seq:
+        if op[0] == "m":
+            want = None if op == "mx" else op[1]
+            if want is not None and any(ids[i] == want for i in live):
+                continue
+            ids.append(want if want is not None else f"auto{len(ids)}")
+            live.append(len(ids) - 1)
+        else:
+            k = int(op[1])
+            if k >= len(ids):
+                return False
+            if k in live:
+                live.remove(k)
+    return True
+
+
+SCENARIOS = {"ids": IdScn, "hist": HistScn}
 
 
 def stmt_pred(m, q, l):
@@ -299,6 +440,15 @@ def run(tier: str, only=None) -> int:
             if args != want or "sys.stdin.readline()" not in args[-1]:
                 rep.violation("c20:popen-args", f"popen_args({spec}) == {args}, expected {want}", {"check": PID, "sub": "argv"})
     rep.add_enumeration("popen-argv", n, n)
+    # sequential call histories against a list model (ids reused after exit, repeated exits)
+    if not only or "hist" in only:
+        hs = histories(5 if tier == "quick" else 6)
+        res = pmap(hist_chunk, [hs[i::64] for i in range(64)])
+        rep.add_enumeration("group-call-histories", sum(n for n, _ in res), len(hs), {"alphabet": "makegateway id=a / id=b / automatic id, exit of the 1st/2nd/3rd gateway ever made", "depth": 5 if tier == "quick" else 6})
+        bads = sorted([b for _, b in res if b], key=lambda b: len(b[0]))
+        if bads:
+            ops, v = bads[0]
+            rep.violation(v[0], v[1], {"check": PID, "sub": "hist", "params": {"ops": ops}, "choices": [], "stmt": False})
     # group ids under concurrency
     stmt = harness.stmt_mask(stmt_pred)
     cap = 400000 if tier == "quick" else 6000000
@@ -323,7 +473,7 @@ def replay(path: str) -> int:
     import json
 
     d = json.load(open(path))
-    if d.get("sub", "").startswith("ids/"):
+    if d.get("sub", "").startswith("ids/") or d.get("sub") == "hist":
         return harness.replay_file(path, SCENARIOS, stmt_for=lambda d: harness.stmt_mask(stmt_pred))
     print(d)
     return 1
